@@ -24,6 +24,8 @@ impl<S: Storage> Replica<S> {
             r is Ok && operations@.len() > 0 ==> exists|added: Seq<Uuid>| #[trigger] commit_final_p(bp_pred(), old(self).sv(), operations@, final(self).sv(), added),
             //@ob C05 Replica::commit_operations.all-or-nothing
             r is Err ==> final(self).sv() == old(self).sv(),
+            //@ob C19 Replica::commit_operations.the-cached-dependency-map-is-not-retained ("may now be invalid, do not retain it")
+            r is Ok && operations@.len() > 0 ==> final(self).depmap is None,
 {
         if operations.is_empty() {
             return Ok(());
@@ -78,6 +80,7 @@ impl<S: Storage> Replica<S> {
                 && rebuild_post_p(pr_pred(), renumber, old(self).sv().ws, old(self).sv().tasks, final(self).sv().ws),
             r is Err ==> final(self).sv() == old(self).sv(),
             r matches Err(e) ==> storage_err(e),
+            final(self).depmap == old(self).depmap && final(self).added_undo_point == old(self).added_undo_point,
 {
         let pending = String::from(Status::Pending.to_taskmap());
         let recurring = String::from(Status::Recurring.to_taskmap());
@@ -165,6 +168,8 @@ impl<S: Storage> Replica<S> {
         ensures
             //@ob C07 Replica::commit_reversed_operations.false:-either-nothing-changed-or-only-undo-points-were-withdrawn (the tasks are as before either way)
             r matches Ok(false) ==> undo_post(old(self).sv(), operations@, false, final(self).sv()),
+            //@ob C19 Replica::commit_reversed_operations.the-cached-dependency-map-is-not-retained
+            r matches Ok(true) ==> final(self).depmap is None,
             //@ob C07 C15 Replica::commit_reversed_operations.true-means-undone-and-the-working-set-rebuilt-without-renumbering
             r matches Ok(true) ==> exists|mid: TxnView| #[trigger] undo_post(old(self).sv(), operations@, true, mid)
                 && final(self).sv() == (TxnView { ws: final(self).sv().ws, ..mid }) && ws_ok(final(self).sv())
@@ -365,8 +370,8 @@ impl<S: Storage> Replica<S> {
                         {
                             let ghost jj = it_p.index() as int;
                             let ghost e1 = dm.edges@;
-                            let ghost kk = p.s@;
-                            proof { assert(it_p.seq()[jj] == p); }
+                            let ghost kk = p@;
+                            proof { assert(it_p.seq()[jj] == p); axiom_str_strip(kk, "dep_"); }
                             if let Some(dep_str) = p.strip_prefix("dep_") {
                                 if let Ok(dep) = Uuid::parse_str(dep_str) {
                                     proof { assert(dep_target(kk) == Some(dep)); }
@@ -407,8 +412,8 @@ impl<S: Storage> Replica<S> {
                             }
                         }
                         proof {
-                            assert(exists|keys: Seq<TaskKey>| keys_listed(t0[u], keys) && #[trigger] dm_complete(w0, t0, dm.edges@, ii, keys, keys.len() as int));
-                            let keys = choose|keys: Seq<TaskKey>| keys_listed(t0[u], keys) && #[trigger] dm_complete(w0, t0, dm.edges@, ii, keys, keys.len() as int);
+                            assert(exists|keys: Seq<&String>| keys_listed(t0[u], keys) && #[trigger] dm_complete(w0, t0, dm.edges@, ii, keys, keys.len() as int));
+                            let keys = choose|keys: Seq<&String>| keys_listed(t0[u], keys) && #[trigger] dm_complete(w0, t0, dm.edges@, ii, keys, keys.len() as int);
                             lemma_dm_next(w0, t0, dm.edges@, ii, keys);
                         }
                     }
